@@ -9,7 +9,7 @@
    fallback the unexpected input produces; and [.._guard_necessary] / [.._refuted] theorems
    exhibiting the input on which the same code without the guard panics (the defects repaired on
    the tree, kept as witnesses in corpus/C16). *)
-From Verif Require Import Lib.Base Model.C16_Paths Proofs.C16 Proofs.C16_Bytes Proofs.C16_Config Proofs.C16_Duties.
+From Verif Require Import Lib.Base Model.C16_Paths Model.C16_Sessions Proofs.C16 Proofs.C16_Bytes Proofs.C16_Config Proofs.C16_Duties Proofs.C16_Sessions.
 
 (* =========================================================================================== *)
 (* Path 1 — proposeBlock: from the proposal response to the unblinding providers.               *)
@@ -449,4 +449,72 @@ Print Assumptions C16_graffiti_chain_no_panic.
 Example C16_dynamic_example :
   graffiti_lines [97; 13; 10; 13; 10; 98; 10; 10; 10; 99; 10] = [[97]; [98]; []; [99]] /\
   graffiti_lines [] = [[]] /\ graffiti_lines [10; 10; 32; 13; 10] = [[]].
+Proof. vm_compute. repeat split; reflexivity. Qed.
+
+(* =========================================================================================== *)
+(* Sessions — one service instance over several operations, its providers answering call by call
+   from a script (Model/C16_Sessions.v): fail then succeed, succeed then fail, alternating, an
+   error-free answer that carries nothing.                                                      *)
+
+(* Path 6.  One cache service: the constructor's fetch, then any sequence of head events (with or
+   without data), the block provider answering each call from any script of failures and blocks
+   the client library can deliver ([answer_wf]: no error-free answer without a response or
+   without data, and the container/message/body guarantee of C16_head_no_panic).  The service
+   gets through the constructor and every event (one observation each, none a panic), and the
+   execution head after each step is the one the statement names ([head_trace]: moved by a
+   Bellatrix/Capella/Deneb block with a payload and a non-zero state root, left alone by a failed
+   fetch, an event without data and every other block). *)
+Theorem C16_head_session_no_panic : forall script evs,
+  forallb answer_wf script = true ->
+  head_session_now script evs = map Ok (head_trace None script (EvHead :: evs)) /\
+  length (head_session_now script evs) = S (length evs) /\
+  forall o, In o (head_session_now script evs) -> exists r, o = Ok r.
+Proof.
+  intros script evs Hwf. split; [apply head_session_wf; exact Hwf | apply head_session_no_panic; exact Hwf].
+Qed.
+Print Assumptions C16_head_session_no_panic.
+
+(* Fallbacks over a session: the head is only ever empty or the payload of a block the node
+   served, and a node that fails every fetch leaves it empty. *)
+Theorem C16_head_session_falls_back : forall script evs,
+  Forall (served (script_heads script)) (head_trace None script (EvHead :: evs)) /\
+  (forallb (fun a => match a with BAErr => true | _ => false end) script = true ->
+   Forall (eq None) (head_trace None script (EvHead :: evs))).
+Proof.
+  intros script evs. split; [apply head_session_served | apply head_trace_all_fail].
+Qed.
+Print Assumptions C16_head_session_falls_back.
+
+(* The hypothesis is needed: an error-free answer without a response or without data takes the
+   process down at the constructor or at whichever event meets it (the handler dereferences the
+   response it was given once the error is nil; the client library never gives such an answer). *)
+Theorem C16_head_session_needs_library_guarantee : forall a s cur evs g,
+  a = BANilResponse \/ a = BANilData ->
+  head_session g (a :: s) evs = [Panic] /\ head_events g cur (a :: s) (EvHead :: evs) = [Panic].
+Proof. exact head_nil_answer_panics. Qed.
+Print Assumptions C16_head_session_needs_library_guarantee.
+
+(* Path 8.  One dynamic graffiti provider, any number of calls, each location answering call by
+   call from any script (data, nothing, missing, failing): every call returns, none panics. *)
+Theorem C16_dynamic_session_no_panic : forall calls ps fs,
+  length (dynamic_session calls ps fs) = calls /\
+  forall o, In o (dynamic_session calls ps fs) -> o <> Panic.
+Proof. exact dynamic_session_no_panic. Qed.
+Print Assumptions C16_dynamic_session_no_panic.
+
+(* Path 1.  One proposer service, any number of proposals one after the other, the collaborators
+   (graffiti provider, auctioneer, beacon node, signer, relays, submitter) behaving differently from
+   proposal to proposal in any way the decoders can deliver: every proposal is carried out (one
+   observation each), none panics, and each does exactly what it would do on a fresh service. *)
+Theorem C16_propose_session_no_panic : forall ops, Forall delivered ops ->
+  propose_seq_now ops = map (fun i => (false, fst (propose_now i))) ops.
+Proof. exact propose_seq_no_panic. Qed.
+Print Assumptions C16_propose_session_no_panic.
+
+Example C16_session_example :
+  let b x := BABlock {| bk_version := 5; bk_container := true; bk_message := true; bk_body := true; bk_payload := true; bk_state_zero := false; bk_exec := x |} in
+  (* the node serves block 7, fails once, then serves block 9: the head stays at 7 over the failure *)
+  head_session_now [b 7; BAErr; b 9] [EvHead; EvNoData; EvHead; EvHead] = [Ok (Some 7); Ok (Some 7); Ok (Some 7); Ok (Some 9); Ok (Some 9)] /\
+  head_session_now [BAErr; BANilData] [EvHead; EvHead] = [Ok None; Panic] /\
+  dynamic_session 3 [FOther; FData [97]] (Some [FNotFound]) = [Ok [[]]; Ok [[97]]; Ok [[97]]].
 Proof. vm_compute. repeat split; reflexivity. Qed.
